@@ -20,6 +20,13 @@ CHECKS = {
              'exception is an injected one, success implies the complete effect; retry budget with symbolic fault '
              'positions.  Bound: single request and 2-part shapes, serial schedule; fault pairs in thorough tier.',
         note=_NOTE + '; faults land only on environment calls', technique=_T),
+    'C04': dict(
+        text='Real manager over model executor + model threading (owner-tracking locks: self-deadlock is definite; '
+             'blocking primitives pump other work: nothing runnable = definite deadlock).  Quiescence completion with '
+             'limits symbolic in 1..3, one symbolic fault, symbolic nested-start choices; re-entrant subscriber '
+             'callbacks on every announce path; the submission wait loop.  Bounded to serial and nested (LIFO) '
+             'schedules; arbitrary preemptive interleavings are outside this technique.',
+        note=_NOTE + '; model threading primitives in /verif/vlib/ns.py', technique=_T + ' over nested schedules'),
     'C05': dict(
         text='Multipart upload/copy life cycle against a fake multipart table under one symbolic fault (before/after '
              'effect), incl. the legacy uploader; serial schedule.',
@@ -28,6 +35,12 @@ CHECKS = {
         text='Crash-point invariant evaluated after every FS operation of an in-memory file system, one symbolic fault, '
              'destination pre-existing or not; TransferManager and legacy S3Transfer (single + ranged).',
         note=_NOTE + '; os.rename atomicity trusted; real OS not involved', technique=_T),
+    'C07': dict(
+        text='Cancellation injected at a symbolic scheduling point (before the k-th task start for the five entry '
+             'points; inside the n-th environment call for future.cancel()), symbolic nested-start choices, real '
+             'manager over model executors; oracle on exception type/message, no request for not-started transfers, '
+             'cleanups, success implies complete effect.',
+        note=_NOTE + '; nested (LIFO) schedules only', technique=_T + ' over nested schedules'),
     'C08': dict(
         text='Recording subscribers with a logical clock in every outcome of the single-fault family; provide_size.',
         note=_NOTE + '; serial schedule', technique=_T),
@@ -40,9 +53,18 @@ CHECKS = {
              'counters) against a reference model, bounded API histories, TaskSemaphore conservation, quiescence of '
              'manager semaphores after e2e transfers.',
         note=_NOTE + '; representation invariant stated in harness/c12.py', technique=_T),
+    'C15': dict(
+        text='Exhaustive over the finite argument-name space through a symbolic index, oracle = installed botocore S3 '
+             'model; all manager front ends and the legacy S3Transfer, single and multipart/ranged, with all subsets '
+             'of the interacting checksum arguments.',
+        note=_NOTE + '; arbitrary unknown strings are represented by one fresh name', technique=_T),
     'C16': dict(
         text='The real DeferQueue driven with delivery histories exactly as quantified (parts, attempts cut anywhere, '
              'interleavings) with unbounded symbolic lengths, plus a one-step obligation from an arbitrary queue state.',
+        note=_NOTE, technique=_T),
+    'C17': dict(
+        text='Reference state machine vs the real TransferCoordinator/TransferFuture: one step from every consistent '
+             'state (symbolic state and operation index) and all operation sequences of length 4 (thorough 5).',
         note=_NOTE, technique=_T),
     'C14': dict(
         text='Planning kernels confirmed over all paths at real scale (size <= 5 TiB, chunk <= 8 GiB, symbolic part '
